@@ -7,6 +7,7 @@ import DL.Model.Descriptor
 import DL.Model.Flatten
 import DL.Model.Viewer
 import DL.Model.AmpGen
+import DL.Model.AmpRead
 import DL.Model.Perm
 import DL.Model.ModelLex
 import DL.Model.GooFit
@@ -312,5 +313,20 @@ def encStmt : Stmt → Sexp
   | .decay m ls => .list [.atom "decay", .atom m, .list (ls.map encDLine)]
   | .copyDecay a b => .list [.atom "copydecay", .atom a, .atom b]
   | .modelAlias n m => .list [.atom "model_alias", .atom n, encModelRef m]
+
+/-- L7 reader: a decay tree and the statements with the numerals as written (the `conv_amp_tree` form) -/
+partial def encADecay : ADecay → Sexp
+  | .mk n s l ds => .list [.atom "D", .atom n, encOptStr s, encOptStr l, .list (ds.map encADecay)]
+
+def encAStmtT : Amp.AStmtT → Sexp
+  | .eventType ns => .list [.atom "event_type", strs ns]
+  | .constant n v => .list [.atom "constant", .atom n, .atom v]
+  | .variable n f v e => .list [.atom "variable", .atom n, .atom f, .atom v, .atom e]
+  | .line d f1 v1 e1 f2 v2 e2 => .list [.atom "line", encADecay d, .atom f1, .atom v1, .atom e1, .atom f2, .atom v2, .atom e2]
+  | .cartLine => .list [.atom "cart_line"]
+  | .invertLine => .list [.atom "invert_line"]
+  | .fastCoherentSum n => .list [.atom "fcs", .atom n]
+  | .output s => .list [.atom "output", .atom s]
+  | .nEvents n => .list [.atom "nevents", .atom n]
 
 end DL
